@@ -30,25 +30,34 @@ fn dictionary() -> Vec<&'static str> {
         "low()", "@0", "(", "", "cyc_a", "a = 1", "a = r16", "a = a", "ATmega48", "low(", "'ab'", "1 2 3 4 5 6 7",
         // names that are already something else in the 'after-label-and-def' context
         "lbl = 1", "dreg = 1", "pc = 1", "svar = r16", "lbl = r16", "dreg", "svar", "pc",
+        // paths that are not regular files, a function of itself
+        "\"/dev/zero\"", "\".\"", "\"/\"", "exp2(cyc_a)", "log2(a)",
     ]
 }
 
 struct Context {
     name: &'static str,
     prefix: &'static str,
+    /// text after the line (closes what the prefix opened)
+    suffix: &'static str,
 }
 
-const CONTEXTS: [Context; 10] = [
-    Context { name: "none", prefix: "" },
-    Context { name: "dseg", prefix: ".dseg\n" },
-    Context { name: "eseg", prefix: ".eseg\n" },
-    Context { name: "device-tiny20", prefix: ".device ATtiny20\n" },
-    Context { name: "device-tiny11", prefix: ".device ATtiny11\n" },
-    Context { name: "cyclic-equ", prefix: ".equ cyc_a = cyc_b + 1\n.equ cyc_b = cyc_a\n.equ a = a\n" },
-    Context { name: "self-calling-macro", prefix: ".macro selfm\nselfm @0\n.endm\n.macro ping\npong\n.endm\n.macro pong\nping\n.endm\n.macro selfseg\n.eseg\n.db 1\n.cseg\nselfseg\n.endm\n.macro selforg\nnop\n.org 0x40\nselforg\n.endm\n.macro selfdseg\n.dseg\nselfdseg\n.endm\n.macro selfgrow\nselfgrow @0+@0\n.endm\n.macro selfif\n.if 1\nselfif\n.endif\n.endm\n" },
-    Context { name: "open-if-0", prefix: ".if 0\n" },
-    Context { name: "open-macro", prefix: ".macro never_closed\n" },
-    Context { name: "after-label-and-def", prefix: "lbl: nop\n.def dreg = r20\n.set svar = 3\n" },
+const CONTEXTS: [Context; 13] = [
+    Context { name: "none", prefix: "", suffix: "" },
+    Context { name: "dseg", prefix: ".dseg\n", suffix: "" },
+    Context { name: "eseg", prefix: ".eseg\n", suffix: "" },
+    Context { name: "device-tiny20", prefix: ".device ATtiny20\n", suffix: "" },
+    Context { name: "device-tiny11", prefix: ".device ATtiny11\n", suffix: "" },
+    Context { name: "cyclic-equ", prefix: ".equ cyc_a = cyc_b + 1\n.equ cyc_b = cyc_a\n.equ a = a\n", suffix: "" },
+    Context { name: "self-calling-macro", prefix: ".macro selfm\nselfm @0\n.endm\n.macro ping\npong\n.endm\n.macro pong\nping\n.endm\n.macro selfseg\n.eseg\n.db 1\n.cseg\nselfseg\n.endm\n.macro selforg\nnop\n.org 0x40\nselforg\n.endm\n.macro selfdseg\n.dseg\nselfdseg\n.endm\n.macro selfgrow\nselfgrow @0+@0\n.endm\n.macro selfif\n.if 1\nselfif\n.endif\n.endm\n", suffix: "" },
+    Context { name: "open-if-0", prefix: ".if 0\n", suffix: "" },
+    Context { name: "open-macro", prefix: ".macro never_closed\n", suffix: "" },
+    Context { name: "after-label-and-def", prefix: "lbl: nop\n.def dreg = r20\n.set svar = 3\n", suffix: "" },
+    // the line stands in the body of a macro that is called, in a selected arm, and in the body of
+    // a macro called from another macro's body
+    Context { name: "in-called-macro-body", prefix: ".macro wrap_m\n", suffix: ".endm\nwrap_m 1, 2\n" },
+    Context { name: "in-selected-arm", prefix: ".if 1\n", suffix: ".else\n.endif\n" },
+    Context { name: "in-nested-macro-body", prefix: ".macro outer_m\ninner_m\n.endm\n.macro inner_m\n", suffix: ".endm\nouter_m\n" },
 ];
 
 #[derive(Clone)]
@@ -155,8 +164,12 @@ pub fn run(tier: Tier) -> i32 {
         for h in heads.iter() {
             for l in lists.iter() {
                 // quick tier: two-operand lists in the non-default contexts only for every third head
+                // quick tier: the three "inside a body / arm" contexts take operand lists of length <= 1
+                if !tier.thorough() && ci >= 10 && l.len() > 1 {
+                    continue;
+                }
                 let line = if l.is_empty() { h.clone() } else { format!("{} {}", h, l.join(", ")) };
-                push(&mut cases, &mut meta, format!("{}{}\n", ctx.prefix, line), Meta { origin: "single-line", head: h.clone(), nops: l.len(), ctx: ctx.name, probe: String::new() });
+                push(&mut cases, &mut meta, format!("{}{}\n{}", ctx.prefix, line, ctx.suffix), Meta { origin: "single-line", head: h.clone(), nops: l.len(), ctx: ctx.name, probe: String::new() });
                 if ci == 0 && l.len() <= 1 {
                     push(&mut cases, &mut meta, format!("lab_q: {}\n", line), Meta { origin: "single-line-with-label", head: h.clone(), nops: l.len(), ctx: ctx.name, probe: String::new() });
                     push(&mut cases, &mut meta, format!("{} ; comment\n\n{}", line, line), Meta { origin: "single-line-twice", head: h.clone(), nops: l.len(), ctx: ctx.name, probe: String::new() });
@@ -329,6 +342,44 @@ pub fn run(tier: Tier) -> i32 {
             s.push_str(&(0..m).map(|i| format!("f{}:\n", i)).collect::<String>());
             s
         });
+        // definitions that are cyclic, or double, through each built-in function
+        if n == 10 || n == 1000 {
+            for f in ["low", "high", "byte2", "byte3", "byte4", "lwrd", "hwrd", "page", "exp2", "log2"] {
+                probe(&mut cases, &mut meta, &format!("cyclic-equ-through-{}", f), n, format!(".equ fa_k = {}(fb_k)\n.equ fb_k = {}(fa_k) - 1\nldi r16, fa_k\n", f, f));
+                probe(&mut cases, &mut meta, &format!("self-referring-equ-through-{}", f), n, format!(".equ fn_k = {}(fn_k)\n.if fn_k\nnop\n.endif\n.dw fn_k\n", f));
+                probe(&mut cases, &mut meta, &format!("doubling-equ-through-{}", f), n, {
+                    let m = if n == 10 { 20 } else { 60 };
+                    let mut s = String::from(".equ fd0 = 1\n");
+                    for i in 1..=m {
+                        s.push_str(&format!(".equ fd{} = {}(fd{}) + {}(fd{})\n", i, f, i - 1, f, i - 1));
+                    }
+                    s.push_str(&format!(".dq fd{} & 0xff\n", m));
+                    s
+                });
+            }
+        }
+        // doubling chains whose bodies place many lines that are not instructions
+        probe(&mut cases, &mut meta, "data-macro-doubling-chain", n, {
+            let m = [4usize, 8, 12, 16, 24][ladder.iter().position(|x| *x == n).unwrap_or(0)];
+            let mut s = format!(".device ATtiny13\n.macro bm0\n{}.endm\n", ".dw 0\n".repeat(200));
+            for i in 1..=m {
+                s.push_str(&format!(".macro bm{}\nbm{}\nbm{}\n.endm\n", i, i - 1, i - 1));
+            }
+            s.push_str(&format!("bm{}\n", m));
+            s
+        });
+        probe(&mut cases, &mut meta, "label-macro-doubling-chain", n, {
+            let m = [4usize, 8, 12, 16, 24][ladder.iter().position(|x| *x == n).unwrap_or(0)];
+            let mut s = format!(".macro lm0\n{}.endm\n", ".set lm_v = 1\n.def lm_r = r16\n".repeat(150));
+            for i in 1..=m {
+                s.push_str(&format!(".macro lm{}\nlm{}\nlm{}\n.endm\n", i, i - 1, i - 1));
+            }
+            s.push_str(&format!("lm{}\nnop\n", m));
+            s
+        });
+        // unary runs interleaved with function calls and parentheses (each run below the limit)
+        probe(&mut cases, &mut meta, "unary-runs-between-function-calls", n, format!(".dw {}1{}\n", format!("{}low(", "-".repeat(50)).repeat(n.min(1200)), ")".repeat(n.min(1200))));
+        probe(&mut cases, &mut meta, "unary-runs-between-parentheses", n, format!(".dw {}1{}\n", format!("{}(", "~".repeat(150)).repeat(n.min(400)), ")".repeat(n.min(400))));
         probe(&mut cases, &mut meta, "macro-nesting-chain", n, {
             let m = n.min(1500);
             let mut s = String::new();
